@@ -257,7 +257,7 @@ def run(ctx: common.Ctx):
         "random subsets lazy); (3) user struct dtype round trips over 6 shapes; distinct = distinct cases; non-trivial = nested or mixed")
     quick = ctx.tier == "quick"
     jobs = [(d, ctx.seed * 53 + k) for d in impl.CORE for k in range(3 if quick else 25)]
-    for job, r in zip(jobs, tables.pmap(spox_worker, jobs, chunk=6)):
+    for job, r in tables.pairs(ctx, jobs, tables.pmap(spox_worker, jobs, chunk=6)):
         if isinstance(r, tables.Crashed):
             ctx.violation("spox/interpreter-crash", f"{job}", {"job": repr(job)}); continue
         ctx.case(("spox",) + job, True)
@@ -266,7 +266,7 @@ def run(ctx: common.Ctx):
     pjobs = [(ctx.seed * 7001 + k,) for k in range(150 if quick else 2500)]
     pres = tables.pmap(propagate_worker, pjobs, chunk=8)
     # Lean model: constant_inputs for the same argument trees
-    for job, r in zip(pjobs, pres):
+    for job, r in tables.pairs(ctx, pjobs, pres):
         if isinstance(r, tables.Crashed):
             ctx.violation("eager_propagate/interpreter-crash", f"{job}", {"job": repr(job)}); continue
         nested = any(ch in r["tree"] for ch in "[{<")
@@ -277,7 +277,7 @@ def run(ctx: common.Ctx):
                           f"wrapped fn, args {r['tree']} dtypes {r['dtypes']} lazy {r['lazy']} outputs {r['n_out']}: {kind}: {detail}",
                           {**{k: r[k] for k in ("dtypes", "lazy", "tree", "n_out", "kw", "inplace")}, "kind": kind, "detail": detail})
     sjobs = [((),), ((3,),), ((2, 2),), ((0,),), ((1, 3, 1),), ((2, 0),)]
-    for job, r in zip(sjobs, tables.pmap(struct_worker, sjobs, workers=1)):
+    for job, r in tables.pairs(ctx, sjobs, tables.pmap(struct_worker, sjobs, workers=1)):
         ctx.case(("struct",) + job, True)
         for kind, detail in r["fail"]:
             ctx.violation(f"user-struct/{kind}", f"Pair dtype, shape {r['shape']}: {kind}: {detail}", {"shape": r["shape"], "kind": kind, "detail": detail})
